@@ -84,6 +84,7 @@ class Ctx:
         self.notes = []
         self.broken = []          # broken obligations / correspondence: (kind, detail)
         self.known = load_known(prop)
+        self._built_bins = set()
 
     def cleanup(self):
         shutil.rmtree(self.scratch, ignore_errors=True)
@@ -159,23 +160,51 @@ class Ctx:
         return rc == 0
 
     # ---------------------------------------------------------------- implementation side
-    def go_build(self, comp):
-        """build harness/cmd/<comp> against /repo's working tree with hooks on"""
+    def harness_dir(self):
+        """the harness module; when VERIF_REPO points somewhere else than /repo (a scratch worktree used to try a
+        candidate change) a private copy with the `replace` line rewritten is used"""
+        if os.path.realpath(REPO) == "/repo":
+            return HARNESS
+        d = os.path.join(self.scratch, "harness")
+        if not os.path.isdir(d):
+            shutil.copytree(HARNESS, d)
+            gm = os.path.join(d, "go.mod")
+            txt = open(gm).read().replace("=> /repo", "=> " + os.path.realpath(REPO))
+            open(gm, "w").write(txt)
+        return d
+
+    def go_build(self, comp, kind="main"):
+        """build harness/cmd/<comp> against the repository's working tree with hooks on
+        (kind="gotest": a test binary, for harnesses that need testing/synctest)"""
         out = os.path.join(self.scratch, "hx-" + comp)
+        hd = self.harness_dir()
         with Lock("gomod"):
             try:
-                shutil.copy(os.path.join(REPO, "go.sum"), os.path.join(HARNESS, "go.sum"))
+                shutil.copy(os.path.join(REPO, "go.sum"), os.path.join(hd, "go.sum"))
             except OSError:
                 pass
-            rc, log = sh(["go", "build", "-tags", "verif", "-o", out, "./cmd/" + comp], cwd=HARNESS, env=env_go())
+            if kind == "gotest":
+                cmd = ["go", "test", "-c", "-tags", "verif", "-o", out, "./cmd/" + comp]
+            else:
+                cmd = ["go", "build", "-tags", "verif", "-o", out, "./cmd/" + comp]
+            rc, log = sh(cmd, cwd=hd, env=env_go())
         if rc != 0:
             self.broken.append(("harness", "go build ./cmd/%s failed: %s" % (comp, log[-1500:])))
             return None
         return out
 
-    def drv(self, comp_drv, trace_path):
+    def drv(self, comp_drv, trace_path, drv_bin="bngdrv"):
+        exe = os.path.join(LEAN, ".lake", "build", "bin", drv_bin)
+        if drv_bin != "bngdrv" and drv_bin not in self._built_bins:
+            with Lock("lean"):
+                rc, out = sh(["lake", "build", drv_bin], cwd=LEAN)
+            self._built_bins.add(drv_bin)
+            if rc != 0:
+                self.broken.append(("driver", "lake build %s failed: %s" % (drv_bin, out[-800:])))
+        if not os.path.exists(exe):
+            return [], 127, "driver executable %s missing" % exe
         with open(trace_path) as f:
-            p = subprocess.run([BNGDRV, comp_drv], stdin=f, stdout=subprocess.PIPE, stderr=subprocess.PIPE, text=True)
+            p = subprocess.run([exe, comp_drv], stdin=f, stdout=subprocess.PIPE, stderr=subprocess.PIPE, text=True)
         return p.stdout.splitlines(), p.returncode, p.stderr
 
 
@@ -221,7 +250,7 @@ class Component:
     """one (harness binary, bngdrv component) pair and the monitors that belong to the property"""
 
     def __init__(self, name, harness=None, drv=None, monitors=None, gen_args=None, corpus=None, exec_env=None,
-                 ignore_diff_ops=()):
+                 ignore_diff_ops=(), drv_bin="bngdrv", kind="main"):
         self.name = name
         self.harness = harness or name
         self.drv = drv or name
@@ -232,13 +261,20 @@ class Component:
         # observer operations whose answer is not part of THIS property (another property's check owns them):
         # a model/implementation disagreement on these alone does not break this property's correspondence
         self.ignore_diff_ops = set(ignore_diff_ops)
+        # name of the lean_exe target that hosts this component's driver (default: the common bngdrv);
+        # drivers that import REGENERATED modules (Bng/Gen) live in their own executable so that a failing
+        # translator cannot take the other properties' driver down
+        self.drv_bin = drv_bin
+        # "main": harness/cmd/<harness> is a main package; "gotest": it is a test package built with `go test -c`
+        # (its TestMain must implement the same gen/exec command line)
+        self.kind = kind
 
 
 def run_component(ctx, comp, seeds=None, tier=None):
     """correspondence + monitor pass for one component; returns list of anomaly dicts"""
     tier = tier or ctx.tier
     seeds = seeds or [ctx.seed]
-    binp = ctx.go_build(comp.harness)
+    binp = ctx.go_build(comp.harness, comp.kind)
     if binp is None:
         return []
     anomalies = []
@@ -264,7 +300,7 @@ def run_component(ctx, comp, seeds=None, tier=None):
     cstat = ctx.corr["components"].setdefault(comp.name, {"seqs": 0, "lines": 0, "diffs": 0, "viols": 0})
     seen_diff = set()
     for origin, tp in traces:
-        out, rc, err = ctx.drv(comp.drv, tp)
+        out, rc, err = ctx.drv(comp.drv, tp, comp.drv_bin)
         if rc != 0:
             ctx.broken.append(("driver", "bngdrv %s exited %d: %s" % (comp.drv, rc, err[-500:])))
         seqs = None
@@ -343,7 +379,7 @@ def recheck(ctx, comp, binp, ops, want):
     env.update(comp.exec_env)
     with open(tp, "w") as fout:
         subprocess.run([binp, "exec"], input="\n".join(ops) + "\n", stdout=fout, env=env, text=True, timeout=600)
-    out, _, _ = ctx.drv(comp.drv, tp)
+    out, _, _ = ctx.drv(comp.drv, tp, comp.drv_bin)
     for line in out:
         if want["kind"] == "VIOL" and line.startswith("VIOL") and ("monitor=%s " % want["monitor"]) in line \
                 and ("clause=%s " % want["clause"]) in line:
@@ -429,7 +465,7 @@ def judge(ctx, comps, anomalies_by_comp, escalate=None):
             comp, a = diffs[0]
             ops = shrink(ctx, comp, a)
             _, tp = recheck(ctx, comp, os.path.join(ctx.scratch, "hx-" + comp.harness), ops, a)
-            out, _, _ = ctx.drv(comp.drv, tp)
+            out, _, _ = ctx.drv(comp.drv, tp, comp.drv_bin)
             rp = write_replay(ctx, "%s-diff" % comp.name, {
                 "property": ctx.prop, "kind": "correspondence-broken", "component": comp.name,
                 "what": "model and implementation disagree; no property monitor fired on the implementation",
@@ -533,7 +569,7 @@ def replay(prop, comps, path):
         if comp is None:
             print(json.dumps(data, indent=1))
             return 0
-        binp = ctx.go_build(comp.harness)
+        binp = ctx.go_build(comp.harness, comp.kind)
         sh(["lake", "build", "bngdrv"], cwd=LEAN)
         tp = os.path.join(ctx.scratch, "replay.trace")
         with open(tp, "w") as fout:
@@ -541,7 +577,7 @@ def replay(prop, comps, path):
         print("--- implementation trace")
         print(open(tp).read())
         print("--- model / monitor verdicts (bngdrv %s)" % comp.drv)
-        out, _, _ = ctx.drv(comp.drv, tp)
+        out, _, _ = ctx.drv(comp.drv, tp, comp.drv_bin)
         print("\n".join(out))
         return 0
     finally:
